@@ -75,7 +75,7 @@ def c04_jobs(tier):
 
 
 def c05_jobs(tier):
-    jobs = [sim("c05-grid", "c05", require_counters=["modifications", "nacks", "parked_consumer_woken_by_nack", "probe.new-1ms.returned", "probe.new+slack.returned"]),
+    jobs = [sim("c05-grid", "c05", require_counters=["modifications", "nacks", "parked_consumer_woken_by_nack", "probe.new-1ms.returned", "probe.new+slack.returned", "mixed_batches_checked"]),
             sim("c05-alphabet", "c02", params={"random": 0}, require_nontrivial=False)]
     if tier == "thorough":
         jobs.append(miri("c05-miri", "c05", 32))
@@ -223,7 +223,7 @@ PROPERTIES = {
             "assumptions": ["sequential episodes: statuses that only a race with a deletion can produce do not occur"]},
     "C05": {"level": "exploration", "jobs": c05_jobs, "engine": "dvsim",
             "technique": "runtime monitoring on a virtual clock against the reference model: boundary-value grid for N, probes around old and new deadlines, request-atomicity probes after rejections, unary and streaming paths",
-            "level_text": "For N over the boundary classes (1, 9, 10, 11, 30, 599, 600, 601, 100000, i32::MAX), three modification instants and both the unary RPC and the StreamingPull control message, the modified lease is probed 1 ms before and just after its new deadline and at its old one; N=0 is checked by probe and with a parked consumer; negative N and malformed ack IDs at every position of a batch must answer INVALID_ARGUMENT and leave both leases on their original deadlines; unknown and stale IDs must have no effect. Random histories and the exhaustive C02 alphabet (which contains nack and modify) add sequences. The grid is enumerated completely; the i32 range and histories are sampled by class.",
+            "level_text": "For N over the boundary classes (1, 9, 10, 11, 30, 599, 600, 601, 100000, i32::MAX), three modification instants and both the unary RPC and the StreamingPull control message, the modified lease is probed 1 ms before and just after its new deadline and at its old one; N=0 is checked by probe and with a parked consumer; negative N and malformed ack IDs at every position of a batch must answer INVALID_ARGUMENT and leave both leases on their original deadlines; unknown and stale IDs must have no effect, and must not keep live IDs of the same request from being applied (dead IDs in front, duplicates, a modification that sets exactly the current deadline). Random histories and the exhaustive C02 alphabet (which contains nack and modify) add sequences. The grid is enumerated completely; the i32 range and histories are sampled by class.",
             "level_note": SIM_NOTE,
             "assumptions": ["'malformed ack ID' = a string the server cannot have issued: empty, letters, embedded spaces, 26-digit numbers, full-width digits, negative or fractional numerals"]},
     "C04": {"level": "exploration", "jobs": c04_jobs, "engine": "dvsim",
@@ -233,7 +233,7 @@ PROPERTIES = {
             "assumptions": ["tokio timers have 1 ms resolution: expiry instants are observed rounded up to the next millisecond"]},
     "C02": {"level": "exploration", "jobs": c02_jobs, "engine": "dvsim",
             "technique": "runtime monitoring against an executable reference model: exhaustive bounded operation sequences + random sequential histories on a virtual clock, exact per-step oracle incl. stats of every subscription",
-            "level_text": "All sequences up to length 4 (quick) / 5 (thorough) over a 12-letter alphabet (publish, pulls, ack of oldest/newest/stale/unknown/repeated IDs, nack, modify, time advances to 1 ms before / just past the next deadline) run against the real services on a topic with two subscriptions, followed by three deadline crossings with full pulls; plus thousands of random 40-80 step histories. After every step the reference model must admit the response and the hook stats of both subscriptions must equal the model, so 'touches nothing else' is observed, not assumed. The bounded family is enumerated completely; longer histories are sampled.",
+            "level_text": "All sequences up to length 4 (quick) / 5 (thorough) over a 13-letter alphabet (publish, pulls, ack of oldest/newest/stale/unknown/repeated IDs, one request with a dead ID in front of every live ID, nack, modify, time advances to 1 ms before / just past the next deadline) run against the real services on a topic with two subscriptions, followed by three deadline crossings with full pulls; plus thousands of random 40-80 step histories. After every step the reference model must admit the response and the hook stats of both subscriptions must equal the model, so 'touches nothing else' is observed, not assumed. The bounded family is enumerated completely; longer histories are sampled.",
             "level_note": SIM_NOTE,
             "assumptions": ["acks inside the expiry window [D, D+999 ms] assert nothing (ambiguous)"]},
     "C14": {"level": "fault_enumeration", "jobs": c14_jobs, "engine": "dvsim + scripted push endpoint",
